@@ -258,6 +258,9 @@ func runC15(p *P, r *R) {
 	adv := func(f *ssa.Function, word string, succ func(ret *ssa.Return) bool, what string) {
 		stores := findInstrs(f, mStoreWord(word))
 		for _, ret := range returnsOf(f) {
+			if f.Recover != nil && ret.Block() == f.Recover {
+				continue
+			}
 			cnt := 0
 			for _, st := range stores {
 				if instrDominates(st, ret) {
